@@ -112,15 +112,7 @@ func hashType(t types.Type) int {
 //
 // Panic ensues if t is an invalid map key type: function, map or slice.
 func usesBuiltinMap(t types.Type) bool {
-	switch t := t.(type) {
-	case *types.Basic, *types.Chan, *types.Pointer:
-		return true
-	case *types.Named, *types.Alias:
-		return usesBuiltinMap(t.Underlying())
-	case *types.Interface, *types.Array, *types.Struct:
-		return false
-	}
-	panic(fmt.Sprintf("invalid map key type: %T", t))
+	return false // symgo: every map is a *hashmap (deterministic iteration, symbolic keys)
 }
 
 func (x array) eq(t types.Type, _y interface{}) bool {
@@ -197,6 +189,9 @@ func (x rtype) eq(_ types.Type, y interface{}) bool {
 // In a well-typed program, the dynamic types of x and y are
 // guaranteed equal.
 func equals(t types.Type, x, y value) bool {
+	if containsSym(x) || containsSym(y) {
+		return decideBool(equalsV(t, x, y))
+	}
 	switch x := x.(type) {
 	case bool:
 		return x == y.(bool)
@@ -305,8 +300,10 @@ func hash(outer, t types.Type, x value) int {
 		return x.hash(t)
 	case rtype:
 		return x.hash(t)
+	case unsafe.Pointer:
+		return int(uintptr(x))
 	}
-	panic(fmt.Sprintf("unhashable type %v", outer))
+	panic(fmt.Sprintf("unhashable type %v (%T)", outer, x))
 }
 
 // reflect.Value struct values don't have a fixed shape, since the
@@ -354,6 +351,7 @@ func store(T types.Type, addr *value, v value) {
 			store(T.Elem(), &lhs[i], rhs[i])
 		}
 	default:
+		logStore(addr)
 		*addr = v
 	}
 }
@@ -366,30 +364,21 @@ func writeValue(buf *bytes.Buffer, v value) {
 	case nil, bool, int, int8, int16, int32, int64, uint, uint8, uint16, uint32, uint64, uintptr, float32, float64, complex64, complex128, string:
 		fmt.Fprintf(buf, "%v", v)
 
-	case map[value]value:
-		buf.WriteString("map[")
-		sep := ""
-		for k, e := range v {
-			buf.WriteString(sep)
-			sep = " "
-			writeValue(buf, k)
-			buf.WriteString(":")
-			writeValue(buf, e)
-		}
-		buf.WriteString("]")
+	case *sym:
+		fmt.Fprintf(buf, "<sym %s %s>", kindName(v.k), v.t.Expr(3))
+
+	case sstring:
+		buf.WriteString(v.debug())
 
 	case *hashmap:
 		buf.WriteString("map[")
-		sep := " "
-		for _, e := range v.entries() {
-			for e != nil {
-				buf.WriteString(sep)
-				sep = " "
-				writeValue(buf, e.key)
-				buf.WriteString(":")
-				writeValue(buf, e.value)
-				e = e.next
-			}
+		sep := ""
+		for _, e := range v.live() {
+			buf.WriteString(sep)
+			sep = " "
+			writeValue(buf, e.key)
+			buf.WriteString(":")
+			writeValue(buf, e.value)
 		}
 		buf.WriteString("]")
 
@@ -488,37 +477,20 @@ func (it *stringIter) next() tuple {
 	return okv
 }
 
-type mapIter struct {
-	iter *reflect.MapIter
-	ok   bool
-}
-
-func (it *mapIter) next() tuple {
-	it.ok = it.iter.Next()
-	if !it.ok {
-		return []value{false, nil, nil}
-	}
-	k, v := it.iter.Key().Interface(), it.iter.Value().Interface()
-	return []value{true, k, v}
-}
-
 type hashmapIter struct {
-	iter *reflect.MapIter
-	ok   bool
-	cur  *entry
+	m *hashmap
+	i int
 }
 
 func (it *hashmapIter) next() tuple {
-	for {
-		if it.cur != nil {
-			k, v := it.cur.key, it.cur.value
-			it.cur = it.cur.next
-			return []value{true, k, v}
+	if it.m != nil {
+		for it.i < len(it.m.order) {
+			e := it.m.order[it.i]
+			it.i++
+			if !e.deleted {
+				return []value{true, e.key, e.value}
+			}
 		}
-		it.ok = it.iter.Next()
-		if !it.ok {
-			return []value{false, nil, nil}
-		}
-		it.cur = it.iter.Value().Interface().(*entry)
 	}
+	return []value{false, nil, nil}
 }
